@@ -83,7 +83,11 @@ def common_spec(rng, tier, controls=True, limits=False):
         o['pressure_exponent'] = 0.5
     o['extra_hydraulic'] = {'accuracy': 1e-6, 'trials': 200}
     if controls and rng.random() < 0.7:
-        ctrlgen.add_random_controls(spec, rng, n=(1, 4), kinds=('time', 'time', 'clock', 'tank', 'tank', 'tank', 'pressure', 'rule_time', 'rule_tank', 'rule_time', 'setting', 'setting'), offgrid=0.3)
+        ctrlgen.add_random_controls(spec, rng, n=(1, 4), kinds=('time', 'time', 'clock', 'tank', 'tank', 'tank', 'pressure', 'rule_time', 'rule_tank', 'rule_time', 'setting', 'setting', 'rule_setting', 'rule_setting'), offgrid=0.3)
+    if controls and spec['valves'] and rng.random() < 0.35:
+        # rules that set a valve setting in THEN and ELSE: every clause has its own unit conversion in the INP writer and its own
+        # hidden "activate the valve" companion in the simulator
+        ctrlgen.add_random_controls(spec, rng, n=(1, 1), kinds=('rule_setting',), offgrid=0.3)
     # closing a bridge cuts junctions off from every source: EPANET then reports 'disconnected' heads of -1e6 while WNTR zeroes
     # them (not a common feature).  Closed pipes and control targets are therefore taken from links that lie on a loop.
     import networkx as nx
@@ -221,7 +225,11 @@ def side_without_source(topo, links, rw, v, k):
 
 def run_engines(c, rng):
     limits = c.index % 16 in (6, 14)
-    spec = common_spec(rng, c.tier, limits=limits)
+    if c.index % 16 == 10:
+        spec = rig_spec(rng)
+        c.count('valve_rig_cases')
+    else:
+        spec = common_spec(rng, c.tier, limits=limits)
     if limits:
         c.count('tank_limit_bucket_cases')
     c.count('engine_cases')
@@ -671,8 +679,26 @@ def compare_results(c, label, ra, rb, counter, wit, rel=3e-4, ab=1e-6, starved=N
     return True
 
 
+def rig_spec(rng):
+    """A valve rig (reservoir - pipe - VALVE - pipe - tank | reservoir | dead end) in which the valve is steered into a chosen
+    status, with controls and rules (THEN and ELSE) that change its setting: every clause goes through its own unit conversion in
+    the INP writer and its own hidden 'activate the valve' companion in the simulator."""
+    from vlib.props import c02
+    spec = c02.valve_rig(rng)
+    o = spec['options']
+    o['extra_hydraulic'] = {'accuracy': 1e-06, 'trials': 200}
+    for t in spec['tanks']:
+        t['diameter'] = 30.0
+    ctrlgen.add_random_controls(spec, rng, n=(1, 2), kinds=('rule_setting', 'rule_setting', 'setting'), offgrid=0.3)
+    return spec
+
+
 def run_units(c, rng):
-    spec = common_spec(rng, c.tier)
+    if c.index % 8 == 5:
+        spec = rig_spec(rng)
+        c.count('valve_rig_cases')
+    else:
+        spec = common_spec(rng, c.tier)
     wn = gnet.build(spec)
     c.count('units_cases')
     c.set_sig('units', gnet.signature(spec), spec['options']['demand_model'], len(spec['controls']))
